@@ -841,18 +841,24 @@ func c13RunAll(c *ctx, perturbed bool, n int) {
 func genC13RelayInner(c *ctx) {
 	c.sample = []string{}
 	os.Unsetenv("TMUX")
-	if os.Getenv("C13_MODE") == "plain" { // the unperturbed families, on the plain build
+	switch os.Getenv("C13_MODE") { // the unperturbed families on the plain build, one child each
+	case "seq": // canonical schedules vs the model
 		c13VlDump = nil
 		base := c.rng.Int63n(1 << 40)
 		for i := c.pick(60, 400); i > 0; i-- {
 			c13Sequential(c, base, i)
 		}
+		return
+	case "runs": // scripted runs judged by the oracle
+		c13VlDump = nil
 		c13RunAll(c, false, c.pick(400, 4000))
-		// the reset guard, direct scenario: a stale reset request behind a slow server (c13_reset.go)
+		return
+	case "late": // the reset guard, direct scenario: a stale reset request behind a slow server (c13_reset.go)
 		for k, n := 0, c.pick(8, 48); k < n; k++ {
 			c13LateResetPlain(c, k, k%4, (k/4)%2 == 1, 5*time.Millisecond)
 		}
-		// the client answers the trigger at once, GOMAXPROCS 2..16 (c13_proc.go); alone in the process
+		return
+	case "entry": // the client answers the trigger at once, GOMAXPROCS 2..16 (c13_proc.go)
 		c13EntryAll(c)
 		return
 	}
@@ -933,8 +939,9 @@ func genC13Relay(c *ctx) {
 		}
 	}
 	// every relay runs in a child process (c13_proc.go):
-	//   plain      the unperturbed families on the plain build (canonical schedules vs the model,
-	//              scripted runs, stale reset behind a slow server, immediate answer to the trigger)
+	//   plain-*    the unperturbed families on the plain build, one child each (canonical schedules
+	//              vs the model, scripted runs, stale reset behind a slow server, immediate answer
+	//              to the trigger)
 	//   perturbed  overlay build: seeded yield/sleep points, no logging, no extra synchronisation
 	//   traced     overlay build + trace logging, every run replayed on the model
 	//   sched      overlay build: the schedules found on the model, replayed through the scripted
@@ -942,7 +949,10 @@ func genC13Relay(c *ctx) {
 	ov := filepath.Join(tmp, "corr_overlay")
 	drv := "C13_DRIVER=" + filepath.Join(filepath.Dir(goDir), "ocaml", "driver")
 	passes := []c13Pass{
-		{"plain", exe, []string{"C13_MODE=plain", drv}},
+		{"plain-seq", exe, []string{"C13_MODE=seq"}},
+		{"plain-runs", exe, []string{"C13_MODE=runs"}},
+		{"plain-late", exe, []string{"C13_MODE=late"}},
+		{"plain-entry", exe, []string{"C13_MODE=entry"}},
 		{"perturbed", ov, []string{"C13_PERTURBED=1"}},
 		{"traced", ov, []string{"C13_PERTURBED=1", "VERIF_VL=1"}},
 		{"sched", ov, []string{"C13_PERTURBED=1", "VERIF_VL=1", "C13_SCHED=1", drv}},
@@ -959,7 +969,7 @@ func genC13Relay(c *ctx) {
 		}
 		for _, v := range st.Violations {
 			d := v["detail"]
-			if p.name != "plain" {
+			if !strings.HasPrefix(p.name, "plain") {
 				d += fmt.Sprintf(" | VERIF_VP_SEED=%d", vpSeed)
 			}
 			c.violate(v["key"], v["what"], d)
@@ -985,7 +995,7 @@ func genC13Relay(c *ctx) {
 		if p.name == "traced" && (lines == 0 || st.Distribution["traces_validated_against_impl"] != lines) {
 			c.violate("relay-trace-inert", "the logging overlay produced no trace to validate", fmt.Sprintf("%d runs, %d trace lines", st.Distribution["perturbed:runs"], lines))
 		}
-		if p.name == "plain" || p.name == "traced" {
+		if strings.HasPrefix(p.name, "plain") || p.name == "traced" {
 			for _, x := range st.Samples {
 				if len(c.sample) < 8 {
 					c.sample = append(c.sample, x)
